@@ -155,7 +155,8 @@ Inductive mop :=
 | MDropOwn (a : N) (logged : bool)
 | MDropRef (a : N)
 | MRetInvoke (r : ret) (m : option msg)
-| MEmit (e : ev)
+| MValDrop (a : N)         (* the Drop impl of an actor's own value begins *)
+| MDelDone                (* timer_del returns true *)
 | MTerminate (a : N) (c : cause)
 | MLogClose (a : N) (c : cause)
 | MToReady (a : N)
@@ -341,7 +342,7 @@ Definition slab_insert (l : list sentry) (next : N) (child : N) : list sentry * 
 Definition state_drops (a : N) (sa : astate) (s : st) : list mop * st :=
   match sa with
   | SPrep held => (map MDropItem held, s)
-  | SReady sh slab _ => (MEmit (EValDrop a) :: drops sh ++ slab_drops slab, s)
+  | SReady sh slab _ => (MValDrop a :: drops sh ++ slab_drops slab, s)
   | SZombie => ([], s)
   end.
 
@@ -565,7 +566,7 @@ Definition do_act (a : act) (s : st) : list mop * st :=
       if has_core s then
         match var_timer s k v with
         | Some (TI i _ _ _ ci0) =>
-            ([MDropItem ci0; MEmit (EBool TAG_DEL true)], set_timers s (ti_remove (timers s) i))
+            ([MDropItem ci0; MDelDone], set_timers s (ti_remove (timers s) i))
         | None => ([], emit s (EBool TAG_DEL false))
         end
       else bad s 8
@@ -898,10 +899,11 @@ Definition msg_num (m : option msg) : option N :=
 Definition msg_cause (m : option msg) : option cause :=
   match m with Some (MCause c) => Some c | _ => None end.
 
-Definition set_arg (ci : citem) (arg : option N) : citem :=
+(* the call closure kept inside a Ret, with its argument filled in (always a call to [a]) *)
+Definition as_call (a : N) (ci : citem) (arg : option N) : citem :=
   match ci with
-  | CI u c (KMeth a b _) caps q => CI u c (KMeth a b arg) caps q
-  | _ => ci
+  | CI u c k caps q =>
+      CI u c (KMeth a (match k with KMeth _ b _ | KPlain b | KPrep _ b _ => b | _ => [] end) arg) caps q
   end.
 
 Definition ret_invoke (r : ret) (m : option msg) (s : st) : list mop * st :=
@@ -911,16 +913,16 @@ Definition ret_invoke (r : ret) (m : option msg) (s : st) : list mop * st :=
       | RKClos caps body =>
           ([MActs body; MPopFrame], push_frame (emit s (ERet rid (msg_num m))) XNone caps)
       | RKTo a ci =>
-          ([], submit (emit s (ERet rid (msg_num m))) QMain (set_arg ci (msg_num m)))
+          ([], submit (emit s (ERet rid (msg_num m))) QMain (as_call a ci (msg_num m)))
       | RKSomeTo a ci =>
           match m with
-          | Some _ => ([], submit (emit s (ERet rid (msg_num m))) QMain (set_arg ci (msg_num m)))
+          | Some _ => ([], submit (emit s (ERet rid (msg_num m))) QMain (as_call a ci (msg_num m)))
           | None => ([MDropRef a; MDropInner ci], emit s (ERet rid None))
           end
       | RKNotify a inner =>
           let s1 := emit s (ENotify a (msg_cause m)) in
           match inner with
-          | Some (p, ci) => ([], submit s1 QMain ci)
+          | Some (p, ci) => ([], submit s1 QMain (as_call p ci None))
           | None => ([], s1)
           end
       | RKSlab p key inner =>
@@ -1011,7 +1013,8 @@ Definition fire (t : Z) (s : st) : list citem * st :=
 
 Definition fresh_stakker (s : st) (t : Z) : st :=
   let s1 := set_start (set_now (set_alive s true) t) t in
-  let s2 := set_tvars (set_timers (set_idleq (set_lazyq s1 []) []) []) [] in
+  (* the lazy / idle queues and the timers of the previous instance were dropped with it *)
+  let s2 := set_tvars s1 [] in
   set_shut (set_haslogger (set_logfilter (set_logseq (set_recreate s2 (t + RECREATE_SECS * 1000)) 0) 0) false) false.
 
 Definition do_top (o : top) (s : st) : list mop * st :=
@@ -1063,12 +1066,13 @@ Definition handle (m : mop) (s : st) : list mop * st :=
       end
   | MRunItem ci => run_item ci s
   | MDropItem ci => drop_item ci s
-  | MDropInner ci => (drops (ci_caps ci), emit s (EDrop (ci_uid ci) (ci_sq ci) (ci_call ci)))
+  | MDropInner ci => (drops (ci_caps ci), emit s (EDrop (ci_uid ci) (ci_sq ci) true))   (* only calls *)
   | MDropVal v => drop_val v s
   | MDropOwn a lg => drop_own a lg s
   | MDropRef a => drop_ref a s
   | MRetInvoke r m0 => ret_invoke r m0 s
-  | MEmit e => ([], emit s e)
+  | MValDrop a => ([], emit s (EValDrop a))
+  | MDelDone => ([], emit s (EBool TAG_DEL true))
   | MTerminate a c => terminate a c s
   | MLogClose a c =>
       match aget (actors s) a with
